@@ -81,12 +81,22 @@ def main():
             lines = [l for l in p.stdout.splitlines() if l.startswith("VIOLATION") or l.startswith("check ")]
             fired[pid] = [l for l in lines if l.startswith("VIOLATION")]
             print("\n".join(lines))
+        # keep the replays this seeded run produced with the seed (the shared replays/ directory is restored below)
+        keep = os.path.join(seed, "replays")
+        shutil.rmtree(keep, ignore_errors=True)
+        for pid, lines in fired.items():
+            for l in lines[:3]:
+                for tok in l.split():
+                    if tok.startswith("replay=") and os.path.exists(tok[7:]):
+                        os.makedirs(keep, exist_ok=True)
+                        shutil.copy(tok[7:], os.path.join(keep, os.path.basename(tok[7:])))
     finally:
         sh("git -C %s apply -R %s" % (REPO, patch))
         sh("git -C %s checkout -- ." % REPO)
         sh("git -C %s clean -fdq" % REPO)
         # the checks rewrote evidence files on a modified tree: restore the committed ones
         sh("git -C %s checkout -- evidence" % VERIF)
+        sh("git -C %s checkout -- replays; git -C %s clean -fdq replays" % (VERIF, VERIF))
         # ... and the regenerated parts of the Lean project
         sh("git -C %s checkout -- lean/Pulsar/Extracted.lean lean/Pulsar/ExtractedCode.lean" % VERIF)
     print(json.dumps({k: len(v) for k, v in fired.items()}))
